@@ -6,6 +6,7 @@ import (
 	"bufio"
 	"fmt"
 	"io"
+	"os"
 	"os/exec"
 	"strconv"
 	"strings"
@@ -13,13 +14,14 @@ import (
 )
 
 type SolverStats struct {
-	Queries  int
-	Sat      int
-	Unsat    int
-	Unknown  int
-	Errors   int
-	Time     time.Duration
-	MaxQuery time.Duration
+	Queries   int
+	Sat       int
+	Unsat     int
+	Unknown   int
+	Errors    int
+	Fallbacks int
+	Time      time.Duration
+	MaxQuery  time.Duration
 }
 
 type Solver struct {
@@ -32,6 +34,9 @@ type Solver struct {
 	Stats    SolverStats
 	log      io.Writer
 	dead     bool
+	script   strings.Builder // everything sent since the last reset (GOSYM_DUMP_UNKNOWN)
+	base     strings.Builder // declarations and assertions since the last reset
+	dumpDir  string
 }
 
 const sentinel = "@@gosym-done@@"
@@ -62,7 +67,7 @@ func NewSolver(kind string, timeoutMs int) (*Solver, error) {
 	if err := cmd.Start(); err != nil {
 		return nil, err
 	}
-	s := &Solver{name: kind, cmd: cmd, in: in, out: bufio.NewReaderSize(out, 1<<16), timeout: timeoutMs}
+	s := &Solver{name: kind, cmd: cmd, in: in, out: bufio.NewReaderSize(out, 1<<16), timeout: timeoutMs, dumpDir: os.Getenv("GOSYM_DUMP_UNKNOWN")}
 	s.Reset()
 	return s, nil
 }
@@ -84,6 +89,9 @@ func (s *Solver) Close() {
 }
 
 func (s *Solver) send(txt string) {
+	if s.dumpDir != "" {
+		s.script.WriteString(txt)
+	}
 	if s.log != nil {
 		io.WriteString(s.log, txt)
 	}
@@ -115,9 +123,69 @@ func (s *Solver) roundTrip(txt string) []string {
 	}
 }
 
+// fallback asks the other z3 build the same question in a one-shot process.
+func (s *Solver) fallback(extra *Term, wantModel bool) (Result, map[string]*Term) {
+	var bin string
+	switch s.name {
+	case "z3":
+		bin = "z3-new"
+	case "z3-new":
+		bin = "/usr/bin/z3"
+	default:
+		return Unknown, nil
+	}
+	var q strings.Builder
+	fmt.Fprintf(&q, "(set-option :timeout %d)\n", s.timeout)
+	q.WriteString(s.base.String())
+	if extra != nil {
+		fmt.Fprintf(&q, "(assert %s)\n", extra.SMT())
+	}
+	q.WriteString("(check-sat)\n")
+	names := sortedVarNames(s.declared)
+	if wantModel && len(names) > 0 {
+		q.WriteString("(get-value (")
+		for _, n := range names {
+			q.WriteString(smtName(n))
+			q.WriteByte(' ')
+		}
+		q.WriteString("))\n")
+	}
+	cmd := exec.Command(bin, "-in", "-smt2", fmt.Sprintf("-T:%d", s.timeout/1000+5))
+	cmd.Stdin = strings.NewReader(q.String())
+	out, _ := cmd.Output()
+	lines := strings.Split(string(out), "\n")
+	if len(lines) == 0 {
+		return Unknown, nil
+	}
+	for _, l := range lines {
+		if strings.HasPrefix(l, "(error") && !strings.Contains(l, "model is not available") {
+			return Unknown, nil
+		}
+	}
+	switch strings.TrimSpace(lines[0]) {
+	case "unsat":
+		return Unsat, nil
+	case "sat":
+		if !wantModel {
+			return Sat, nil
+		}
+		if len(names) == 0 {
+			return Sat, map[string]*Term{}
+		}
+		m, err := parseModel(strings.Join(lines[1:], "\n"), s.declared)
+		if err != nil {
+			return Unknown, nil
+		}
+		return Sat, m
+	}
+	return Unknown, nil
+}
+
 // Reset clears all assertions and declarations.
 func (s *Solver) Reset() {
 	s.declared = map[string]Sort{}
+	s.script.Reset()
+	s.base.Reset()
 	var b strings.Builder
 	b.WriteString("(reset)\n")
 	if s.name != "cvc5" {
@@ -144,6 +212,7 @@ func (s *Solver) Assert(t *Term) {
 	var b strings.Builder
 	s.declare(t, &b)
 	fmt.Fprintf(&b, "(assert %s)\n", t.SMT())
+	s.base.WriteString(b.String())
 	// no round trip: an error line, if any, is seen by the next Check
 	s.send(b.String())
 }
@@ -170,6 +239,7 @@ func (s *Solver) Check(extra *Term, wantModel bool) (Result, map[string]*Term) {
 	var b strings.Builder
 	if extra != nil {
 		s.declare(extra, &b)
+		s.base.WriteString(b.String())
 	}
 	b.WriteString("(push 1)\n")
 	if extra != nil {
@@ -196,6 +266,30 @@ func (s *Solver) Check(extra *Term, wantModel bool) (Result, map[string]*Term) {
 		s.Stats.Errors++
 	}
 	var model map[string]*Term
+	if res == Unknown && !bad && !s.dead {
+		// second opinion from the other z3 build, on the same assertions
+		s.send("(pop 1)\n")
+		res, model = s.fallback(extra, wantModel)
+		d := time.Since(start)
+		s.Stats.Queries++
+		s.Stats.Fallbacks++
+		s.Stats.Time += d
+		if d > s.Stats.MaxQuery {
+			s.Stats.MaxQuery = d
+		}
+		switch res {
+		case Sat:
+			s.Stats.Sat++
+		case Unsat:
+			s.Stats.Unsat++
+		default:
+			s.Stats.Unknown++
+			if s.dumpDir != "" {
+				_ = os.WriteFile(fmt.Sprintf("%s/unknown-%d-%d.smt2", s.dumpDir, os.Getpid(), time.Now().UnixNano()), []byte(s.script.String()), 0o644)
+			}
+		}
+		return res, model
+	}
 	if res == Sat && wantModel && len(s.declared) > 0 {
 		names := sortedVarNames(s.declared)
 		var q strings.Builder
@@ -230,6 +324,9 @@ func (s *Solver) Check(extra *Term, wantModel bool) (Result, map[string]*Term) {
 		s.Stats.Unsat++
 	default:
 		s.Stats.Unknown++
+		if s.dumpDir != "" {
+			_ = os.WriteFile(fmt.Sprintf("%s/unknown-%d-%d.smt2", s.dumpDir, os.Getpid(), time.Now().UnixNano()), []byte(s.script.String()), 0o644)
+		}
 	}
 	return res, model
 }
